@@ -32,6 +32,8 @@ typedef VP_REAL T;
 #else
 #define VP_CANARY() __CPROVER_assert(0, "VP_CANARY reachable (must fail)")
 #endif
+/* a call of a function that may throw: the exception propagates (the caller returns at once) */
+#define VP_CALL_MAY_THROW(call) do { call; if (vp_thrown) return; } while (0)
 /* the repository's own assert(c) becomes an obligation */
 #define VP_REPO_ASSERT(c) __CPROVER_assert((c), "assert() in the repository holds")
 #define VP_SZ_MAX 18446744073709551615UL
@@ -108,11 +110,6 @@ static inline size_t vp_back(size_t n)
     v->p = (ELEM *)malloc((c ? c : 1) * sizeof(ELEM)); v->cap = c;                           \
     __CPROVER_assume(v->p != 0);                                                             \
   }                                                                                          \
-  static inline void vp_##NAME##_push(NAME *v, ELEM x)                                       \
-  {                                                                                          \
-    __CPROVER_assert(v->n < v->cap, "push_back within reserved capacity");                   \
-    v->p[v->n] = x; v->n = v->n + 1;                                                         \
-  }                                                                                          \
   static inline void vp_##NAME##_copy(NAME *v, const NAME *src)                              \
   {                                                                                          \
     /* copy of a vector: fresh storage, equal AT the ghost indices (sound over-approximation) */ \
@@ -144,6 +141,17 @@ static inline size_t vp_back(size_t n)
     v->n = from;                                                                             \
   }
 
+#define VP_DEFINE_VEC_FILL(NAME, ELEM) \
+  static inline void vp_##NAME##_fill(NAME *v, size_t n, ELEM x)                             \
+  {                                                                                          \
+    /* std::vector<X>(n, x): fresh storage holding x AT the ghost indices (sound over-approximation) */ \
+    __CPROVER_assert(n <= VP_MAXN, "vector size within the verified bound");                 \
+    v->p = (ELEM *)malloc((n ? n : 1) * sizeof(ELEM)); v->n = n; v->cap = n;                 \
+    __CPROVER_assume(v->p != 0);                                                             \
+    if (vp_gk < n) v->p[vp_gk] = x; if (vp_gj < n) v->p[vp_gj] = x; if (vp_gm < n) v->p[vp_gm] = x; \
+  }                                                                                          \
+  static inline void vp_##NAME##_assign_fill(NAME *v, size_t n, ELEM x) { vp_##NAME##_fill(v, n, x); }
+
 #define VP_DEFINE_VEC_NEW(NAME, ELEM) \
   static inline void vp_##NAME##_new(NAME *v, size_t n)                                      \
   {                                                                                          \
@@ -153,11 +161,47 @@ static inline size_t vp_back(size_t n)
     VP_ZERO_AT_GHOST(v->p, n)                                                                \
   }
 
-#define VP_DEFINE_VEC_OPS(NAME, ELEM) VP_DEFINE_VEC_OPS_STRUCT(NAME, ELEM) VP_DEFINE_VEC_NEW(NAME, ELEM)
+#define VP_DEFINE_VEC_PUSH_SCALAR(NAME, ELEM) \
+  static inline void vp_##NAME##_push(NAME *v, ELEM x)                                       \
+  {                                                                                          \
+    __CPROVER_assert(v->n < v->cap, "push_back within reserved capacity");                   \
+    v->p[v->n] = x; v->n = v->n + 1;                                                         \
+  }
+
+#define VP_DEFINE_VEC_OPS(NAME, ELEM) VP_DEFINE_VEC_OPS_STRUCT(NAME, ELEM) VP_DEFINE_VEC_NEW(NAME, ELEM) VP_DEFINE_VEC_PUSH_SCALAR(NAME, ELEM) VP_DEFINE_VEC_FILL(NAME, ELEM)
+/* push_back on a vector of class objects (argument by pointer); the vector grows: fresh storage of n+1 elements,
+ * old content preserved AT the ghost indices, new element at the end */
+#define VP_DEFINE_VEC_PUSH_PTR(NAME, ELEM)                                                     \
+  static inline void vp_##NAME##_push(NAME *v, const ELEM *x)                                  \
+  {                                                                                          \
+    size_t n = v->n;                                                                         \
+    __CPROVER_assert(n < VP_MAXN, "vector size within the verified bound");                  \
+    ELEM *q = (ELEM *)malloc((n + 1) * sizeof(ELEM));                                        \
+    __CPROVER_assume(q != 0);                                                                \
+    VP_COPY_AT_GHOST(q, v->p, n)                                                             \
+    q[n] = *x;                                                                               \
+    v->p = q; v->n = n + 1; v->cap = n + 1;                                                  \
+  }
 
 VP_DEFINE_VEC_OPS(vec_T, T)
 VP_DEFINE_VEC_OPS(vec_sz, size_t)
 
+/* std::copy(first, last, d_first) between vectors of T: the destination range becomes arbitrary except AT the ghost
+ * offsets, where it equals the source (sound over-approximation, as for the vector copies) */
+static inline void vp_copy_range(const vec_T *src, size_t lo, size_t hi, vec_T *dst, size_t dlo)
+{
+  __CPROVER_assert(lo <= hi && hi <= src->n, "std::copy source range inside the vector");
+  size_t len = hi - lo;
+  __CPROVER_assert(dlo <= dst->n && len <= dst->n - dlo, "std::copy destination range inside the vector");
+#ifdef VP_NATIVE
+  { size_t i_; for (i_ = 0; i_ < len; ++i_) dst->p[dlo + i_] = src->p[lo + i_]; }
+#else
+  T a = (vp_gk < len) ? src->p[lo + vp_gk] : (T)0, b = (vp_gj < len) ? src->p[lo + vp_gj] : (T)0;
+  if (len > 0) __CPROVER_havoc_slice(dst->p + dlo, len * sizeof(T));
+  if (vp_gk < len) dst->p[dlo + vp_gk] = a;
+  if (vp_gj < len) dst->p[dlo + vp_gj] = b;
+#endif
+}
 static inline size_t vp_max_sz(size_t a, size_t b) { return a < b ? b : a; }
 static inline size_t vp_min_sz(size_t a, size_t b) { return a < b ? a : b; }
 
@@ -214,12 +258,14 @@ T __CPROVER_uninterpreted_grid(const void *, size_t, size_t);
 T __CPROVER_uninterpreted_pow(T x, T y);
 T __CPROVER_uninterpreted_log(T x);
 T vp_pow(T x, T y)
-/* pow for finite x >= 0 and finite exponent 0 < y: result >= 0, not NaN, zero exactly for x == 0
- * (underflow of tiny x ^ y to 0 is NOT excluded: pow(x,y)==0 does not imply x==0). */
-__CPROVER_ensures(__CPROVER_return_value == __CPROVER_uninterpreted_pow(x, y) || (VP_ISNAN(__CPROVER_return_value) && VP_ISNAN(__CPROVER_uninterpreted_pow(x, y))))
+/* ASSUMED libm contract, used for the exponents hep-mc passes (0 < y <= 1 for channel weights, 0 <= y <= 3 for VEGAS):
+ * a deterministic function; for finite x >= 0 and finite y > 0 the result is >= 0 and not NaN; it is 0 for x == 0;
+ * for y <= 1 it is finite and positive for positive x (no overflow, and x^y >= min(x,1) cannot underflow). */
+__CPROVER_ensures(BEQ(__CPROVER_return_value, __CPROVER_uninterpreted_pow(x, y)))
 __CPROVER_ensures((VP_FINITE(x) && x >= 0 && VP_FINITE(y) && y > 0) ==> (__CPROVER_return_value >= 0))
 __CPROVER_ensures((x == 0 && VP_FINITE(y) && y > 0) ==> (__CPROVER_return_value == 0))
-__CPROVER_ensures((x == 1 && VP_FINITE(y)) ==> (__CPROVER_return_value == 1))
+__CPROVER_ensures((VP_FINITE(x) && x >= 0 && y > 0 && y <= 1) ==> VP_FINITE(__CPROVER_return_value))
+__CPROVER_ensures((VP_FINITE(x) && x > 0 && y > 0 && y <= 1) ==> (__CPROVER_return_value > 0))
 __CPROVER_assigns();
 
 T vp_log(T x)
